@@ -14,7 +14,7 @@ fn ref32(a: &[u64], i: usize) -> u32 {
 macro_rules! u32_iter_shape {
     ($name:ident, $l:expr, $k:expr) => {
         #[kani::proof]
-        #[kani::unwind(12)]
+        #[kani::unwind(34)]
         fn $name() {
             let a0: [u64; $l] = vc::any_canon::<$l>();
             let n32: usize = if $l == 0 { 0 } else { 2 * $l - ((a0[$l - 1] >> 32) == 0) as usize };
@@ -69,7 +69,7 @@ macro_rules! u32_iter_shape {
 macro_rules! u64_iter_shape {
     ($name:ident, $l:expr, $k:expr) => {
         #[kani::proof]
-        #[kani::unwind(12)]
+        #[kani::unwind(34)]
         fn $name() {
             let a0: [u64; $l] = vc::any_canon::<$l>();
             let mut it = U64Digits::new(&a0);
